@@ -39,9 +39,20 @@ def run(tier, seed):
     specs = []
     for i in range(60 if tier == 'thorough' else 12):
         specs.append(('wide#%d' % i, [s['text'] for s in gen_wide.generate(rnd) if s['kind'] != 'comment']))
+    # block-structured specifications (headers, optional temporal concept, definitions before the first header)
+    import sys
+    sys.path.insert(0, __import__('os').path.dirname(__import__('os').path.abspath(__file__)))
+    import c11
+    for i in range(30 if tier == 'thorough' else 5):
+        lead, blocks = c11.make_spec(rnd)
+        ss = list(lead)
+        for h, bs in blocks:
+            ss += ([h] if h else []) + bs
+        specs.append(('blocks#%d' % i, ss))
     corp = corpus.load()
     rnd.shuffle(corp)
-    for name, text in corp[:(60 if tier == 'thorough' else 8)]:
+    corp = [c for c in corp if c[0].startswith('regressions/c10_')] + [c for c in corp if not c[0].startswith('regressions/c10_')]
+    for name, text in corp[:(60 if tier == 'thorough' else 11)]:
         ss = split_sentences(text)
         if ss and 2 <= len(ss) <= 40:
             specs.append((name, ss))
